@@ -10,6 +10,7 @@
 (*   buf    records appended but still in the BufWriter (lost by a crash)  *)
 (*   cur    name of the file the writer has open, 0 = none                 *)
 (*   seq    the writer's sequence counter (current_sequence())             *)
+(*   sync   set_sync_mode: every append is flushed before it returns       *)
 (* A record is [len(4) | seq(8) | entry | sum(4)] on disk; it is modelled   *)
 (* at field granularity (seq, payload token, which field a byte flip hit   *)
 (* and the value the field then reads as) and with its exact byte length,  *)
@@ -35,8 +36,8 @@ EXTENDS Naturals, Sequences, FiniteSets
 
 CONSTANTS Cap     \* stands for every field value >= 2^30 (the harness logs min(value, Cap))
 
-VARIABLES files, buf, cur, seq
-wvars == <<files, buf, cur, seq>>
+VARIABLES files, buf, cur, seq, sync
+wvars == <<files, buf, cur, seq, sync>>
 
 \* ---- record layout (bincode, fixed-width integers) ----
 \* CreateNode{tenant:"t", node_id, labels:[], properties:[tok;tok]}: 4 tag + (8+1) + 8 + 8 + (8+tok)
@@ -76,7 +77,7 @@ Flushed(fs, b, c) ==
     IF c = 0 \/ b = <<>> THEN fs
     ELSE [fs EXCEPT ![FileIdx(fs, c)].recs = @ \o b]
 
-WInit == files = <<>> /\ buf = <<>> /\ cur = 0 /\ seq = 0
+WInit == files = <<>> /\ buf = <<>> /\ cur = 0 /\ seq = 0 /\ sync = FALSE
 
 \* ---- Wal::append: the record gets a sequence number greater than every earlier one (the code: +1);
 \* without an open file a file named by that number is opened (created, or appended to if it exists:
@@ -84,20 +85,24 @@ WInit == files = <<>> /\ buf = <<>> /\ cur = 0 /\ seq = 0
 AppendRec(r) ==
     /\ r.seq > seq
     /\ seq' = r.seq
-    /\ IF cur = 0
-         THEN /\ r.seq \in Names(files) => files[FileIdx(files, r.seq)].torn = 0
-              /\ files' = WithFile(files, r.seq)
-              /\ cur' = r.seq
-              /\ buf' = <<r>>
-         ELSE /\ buf' = Append(buf, r)
-              /\ UNCHANGED <<files, cur>>
+    /\ cur = 0 /\ r.seq \in Names(files) => files[FileIdx(files, r.seq)].torn = 0
+    /\ LET c == IF cur = 0 THEN r.seq ELSE cur
+           fs == IF cur = 0 THEN WithFile(files, r.seq) ELSE files
+           b == Append(buf, r)          \* buf is empty while no file is open
+       IN  /\ cur' = c
+           /\ IF sync THEN files' = Flushed(fs, b, c) /\ buf' = <<>>
+                      ELSE files' = fs /\ buf' = b
+    /\ UNCHANGED sync
 
 AppendNode(tok, s) == AppendRec(MkRec(s, "node", tok))
 
 Flush ==
     /\ files' = Flushed(files, buf, cur)
     /\ buf' = <<>>
-    /\ UNCHANGED <<cur, seq>>
+    /\ UNCHANGED <<cur, seq, sync>>
+
+\* Wal::set_sync_mode
+SetSync(on) == sync' = on /\ UNCHANGED <<files, buf, cur, seq>>
 
 \* Wal::checkpoint(current_sequence()): append a marker, flush, close the file
 Checkpoint(s) ==
@@ -110,6 +115,7 @@ Checkpoint(s) ==
            /\ files' = Flushed(fs, Append(buf, r), c)
     /\ buf' = <<>>
     /\ cur' = 0
+    /\ UNCHANGED sync
 
 \* what Wal::new may do to the directory: remove the incomplete tail of the newest file, or leave it
 Trimmed(fs, trim) ==
@@ -122,7 +128,7 @@ Reopen(s, trim) ==
        /\ s >= MaxDurable(fs)
        /\ files' = Trimmed(fs, trim)
     /\ seq' = s
-    /\ buf' = <<>> /\ cur' = 0
+    /\ buf' = <<>> /\ cur' = 0 /\ sync' = FALSE     \* Wal::new starts in async mode
 
 \* the newest file cut at byte b: complete records below b stay, the rest of the bytes is an incomplete tail
 CutAt(f, b) ==
@@ -135,7 +141,7 @@ Crashed(fs, s, trim) ==
     /\ s >= MaxDurable(fs)
     /\ files' = Trimmed(fs, trim)
     /\ seq' = s
-    /\ buf' = <<>> /\ cur' = 0
+    /\ buf' = <<>> /\ cur' = 0 /\ sync' = FALSE
 
 \* crash without damage to the files
 Crash(s, trim) == Crashed(files, s, trim)
@@ -172,13 +178,13 @@ Flip(fi, b, m) ==
            v == IF fld = "len" THEN FlipVal(BodyLen(r), o, m)
                 ELSE IF fld = "seq" THEN FlipVal(r.seq, o - 4, m) ELSE 0
        IN  files' = [files EXCEPT ![fi].recs[j] = [r EXCEPT !.bad = fld, !.v = v]]
-    /\ UNCHANGED <<buf, cur, seq>>
+    /\ UNCHANGED <<buf, cur, seq, sync>>
 
 \* ---- what the pinned tree did (self-test only): numbering restarts at the name of the newest file ----
 LegacyReopen ==
     /\ files' = Flushed(files, buf, cur)
     /\ seq' = IF files = <<>> THEN 0 ELSE files[Len(files)].name
-    /\ buf' = <<>> /\ cur' = 0
+    /\ buf' = <<>> /\ cur' = 0 /\ sync' = FALSE
 
 \* ---- read view: which results of replay(from) the property allows ----
 From(rs, from) == SelectSeq(rs, LAMBDA r : r.seq >= from)
